@@ -175,3 +175,17 @@ Example C12_off_by1_field_nil_pointer :
   off_by1 e = true /\
   evalS {| vars := fun _ t => default_value t; funs := fun _ _ _ t => default_value t; nilp := fun _ => true |} e [] = Some (RPanic, []).
 Proof. vm_compute. repeat split. Qed.
+
+(* ---------------- round 6: pointers to arrays and maps ---------------- *)
+(* C12_sloppy_len_true, C12_off_by1_panics ... quantify over them as well: len of a (nil) pointer to an array is the
+   array's length, len of a map its size; a map read never panics and offBy1's slice filter keeps it (and the pointer)
+   out of the "always panics" claim *)
+Example C12_pointer_array_and_map_operands :
+  sloppy_len_claim (EBinary OGe (ECall (FPrim PLen) [EIdent "pa" TPArr]) (ELit LInt "0" TInt)) = Some true /\
+  sloppy_len_claim (EBinary OLt (ECall (FPrim PLen) [EVarK "mm" (KDef "myMap") TMapIS]) (ELit LInt "0" TInt)) = Some false /\
+  off_by1 (EIndex (EVarK "mm" (KDef "myMap") TMapIS) (ECall (FPrim PLen) [EVarK "mm" (KDef "myMap") TMapIS])) = false /\
+  evalS (env_of [("mm", VMap [(0, "a")]%Z)] []) (EIndex (EVarK "mm" (KDef "myMap") TMapIS) (ECall (FPrim PLen) [EVarK "mm" (KDef "myMap") TMapIS])) []
+    = Some (RVal (VStr ""), []) /\
+  evalS (env_of [("pa", VPArr 3 None)] []) (ECall (FPrim PLen) [EIdent "pa" TPArr]) [] = Some (RVal (VInt 3), []) /\
+  evalS (env_of [("pa", VPArr 3 None)] []) (EIndex (EIdent "pa" TPArr) (ELit LInt "0" TInt)) [] = Some (RPanic, []).
+Proof. vm_compute. repeat split. Qed.
